@@ -167,6 +167,9 @@ func (c *Connect) Unpack(r io.Reader) (err error) {
 	c.CleanStart = (1 & (connectFlags >> 1)) > 0
 	c.WillFlag = (1 & (connectFlags >> 2)) > 0
 	c.WillQos = 3 & (connectFlags >> 3)
+	if c.WillQos > Qos2 { //[MQTT-3.1.2-14]
+		return codes.ErrMalformed
+	}
 	if !c.WillFlag && c.WillQos != 0 { //[MQTT-3.1.2-11]
 		return codes.ErrMalformed
 	}
